@@ -245,6 +245,9 @@ func newNode() *topicNode {
 
 func (node *topicNode) addClients(ans map[string]byte) {
 	for client, qos := range node.clients {
-		ans[client] = qos
+		// a client with several matching subscriptions is served at the maximum QoS of them (MQTT-3.3.5-1)
+		if old, ok := ans[client]; !ok || qos > old {
+			ans[client] = qos
+		}
 	}
 }
